@@ -176,7 +176,7 @@ func (it *Interp) store(p Value, t types.Type, v Value) {
 				return
 			}
 		}
-		*q = copyVal(v)
+		assignInPlace(q, v)
 		return
 	case BytePtr:
 		if q.buf == nil {
@@ -405,4 +405,31 @@ func (it *Interp) reinterpret(v Value, t types.Type) Value {
 		}
 	}
 	return v
+}
+
+// assignInPlace stores v into the slot. Aggregates are overwritten cell by cell so that addresses
+// of fields/elements taken before the store stay valid (as in real memory).
+func assignInPlace(slot *Value, v Value) {
+	switch nv := v.(type) {
+	case Struct:
+		if old, ok := (*slot).(Struct); ok && len(old) == len(nv) {
+			for i := range nv {
+				assignInPlace(&old[i], nv[i])
+			}
+			return
+		}
+	case Array:
+		if old, ok := (*slot).(Array); ok && len(old) == len(nv) {
+			for i := range nv {
+				assignInPlace(&old[i], nv[i])
+			}
+			return
+		}
+	case NumArray:
+		if old, ok := (*slot).(NumArray); ok && len(old.buf.b) == len(nv.buf.b) {
+			copyRange(old.buf, 0, nv.buf, 0, len(nv.buf.b))
+			return
+		}
+	}
+	*slot = copyVal(v)
 }
